@@ -1,0 +1,36 @@
+//go:build verif
+
+package index
+
+// Verification hooks (build tag "verif" only; add-only; nothing here is compiled into a normal build).
+
+import (
+	"time"
+
+	"perkeep.org/pkg/blob"
+	"perkeep.org/pkg/types/camtypes"
+)
+
+// VerifClaimsAttrValue exposes claimsIntfAttrValue over a claim slice, the way
+// LocationHelper.permanodeLocation folds the result of Index.AppendClaims (property C07).
+func VerifClaimsAttrValue(claims []camtypes.Claim, attr string, at time.Time, signerFilter SignerRefSet) string {
+	return claimsIntfAttrValue(claimSlice(claims), attr, at, signerFilter)
+}
+
+// VerifValuesAtSigner reports which source Corpus attribute queries use for (pn, at, signerFilter):
+// "nopn" (unknown permanode), "cache" (valuesAtSigner returned a map), "nilok" (valuesAtSigner
+// returned (nil, true)), or "fold" (cache not valid for at; pm.Claims are folded) (property C07).
+func (c *Corpus) VerifValuesAtSigner(pn blob.Ref, at time.Time, signerFilter string) string {
+	pm, ok := c.permanodes[pn]
+	if !ok {
+		return "nopn"
+	}
+	m, ok := pm.valuesAtSigner(at, signerFilter)
+	switch {
+	case !ok:
+		return "fold"
+	case m == nil:
+		return "nilok"
+	}
+	return "cache"
+}
